@@ -76,7 +76,7 @@ class Tacd:
             except Exception:
                 pass
 
-    def connect_raw(self, timeout=3.0):
+    def connect_raw(self, timeout=45.0):
         deadline = time.time() + timeout
         last = None
         while time.time() < deadline:
